@@ -107,4 +107,5 @@ fn main() {
         }
     }
     println!("UNMENTIONED {unmentioned_checked}");
+    println!("DONE {n}");
 }
